@@ -756,9 +756,8 @@ def gen_cases(rng, n, op="iso", light=False):
                 ok = True
             elif k < 0.10:
                 c, _ = shape_D(rng)
-                ok = small_enough_D(c) and not light
-                if light:
-                    continue
+                # (C12 repeats the isolation ~20 times per case: only the cheaper ones there)
+                ok = small_enough_D(c) and not (light and ("^7" in c.split()[2] or "^8" in c.split()[2] or "^9" in c.split()[2] or "^10" in c.split()[2]))
             elif k < 0.20 and not light:
                 c, _ = shape_N(rng)
                 ok = True
@@ -829,7 +828,9 @@ def extra_coverage(cases, couts, mouts):
     """how the model side disposed of the cases: checked / skipped (no exact reference available) / out of fuel"""
     d = {}
     for m in mouts:
-        k = "none" if m is None else ("checked" if m.startswith("CHECK") else m.split()[0].lower())
+        k = "none" if m is None else (("accepted by the VERIFIED checker" if m.startswith("CHECK ok verified") else
+                                       "accepted by the unverified reference only (outside the checker's scope)" if m.startswith("CHECK ok")
+                                       else "rejected") if m.startswith("CHECK") else m.split()[0].lower())
         d[k] = d.get(k, 0) + 1
     roots = {}
     for o in couts:
